@@ -27,8 +27,16 @@ impl<const BITS: usize, const LIMBS: usize> Uint<BITS, LIMBS> {
 //@ import basics is_zero
 }
 
+//@ extract src/algorithms/gcd/matrix.rs struct Matrix
+pub struct Matrix(pub u64, pub u64, pub u64, pub u64, pub bool);
+//@ end
+pub type LehmerMatrix = Matrix;
 //@ include lib/lehmer_spec.rs
 //@ include lib/lehmer.rs
+impl Matrix {
+//@ import lehmer IDENTITY
+//@ import lehmer apply
+}
 
 // signed cofactor with implicit sign: magnitude t, negative iff neg
 pub open spec fn sg(t: int, neg: bool) -> int { if neg { -t } else { t } }
